@@ -97,7 +97,51 @@ fn has_float(j: &J) -> bool {
     }
 }
 
+/// a built-in alias that ends in an aggregation (`testmultioperator` = `json | count`) is one more
+/// way of writing stages: whatever is written after it acts on the aggregation's table, exactly
+/// as after the written-out operators
+fn check_alias_then_stage(ctx: &mut Ctx) {
+    let n = ctx.budget(60, 1500);
+    for _ in 0..n {
+        let mut r = ctx.rng.fork();
+        let rows = 1 + r.below(9);
+        let input = gen::json_input(&mut r, rows, &gen::DocCfg { key_domain: 3, numeric_only: false }, 3);
+        let mut tail: Vec<String> = vec![];
+        for _ in 0..(1 + r.below(3)) {
+            tail.push(match r.below(9) {
+                0 => format!("limit {}", 1 + r.below(3)),
+                1 => format!("limit -{}", 1 + r.below(3)),
+                2 => format!("where _count > {}", r.below(rows + 1)),
+                3 => "_count * 2 as twice".to_string(),
+                4 => "total(_count) as t".to_string(),
+                5 => (*r.pick(&["fields _count", "fields except nosuch", "fields - twice"])).to_string(),
+                6 => "sort by _count".to_string(),
+                7 => "count by _count".to_string(),
+                _ => "where _count >= 0 | count".to_string(),
+            });
+        }
+        let t = tail.join(" | ");
+        let filter = *r.pick(&["*", "*", "a", "NOT err"]);
+        let q1 = format!("{} | testmultioperator | {}", filter, t);
+        let q2 = format!("{} | json | count | {}", filter, t);
+        let key = ckey(&q1, &input);
+        let info = serde_json::json!({"query": q1, "written_out": q2, "input": String::from_utf8_lossy(&input)});
+        let (a, b) = (imp::run(&q1, &input, "json", 10), imp::run(&q2, &input, "json", 10));
+        if !b.compiled || b.panicked.is_some() || b.hung || a.hung {
+            ctx.case("alias-then-stage", "", "skip", serde_json::json!({"why": "the written-out query is rejected or crashes (judged elsewhere)", "case": info}));
+            continue;
+        }
+        if a.compiled && a.panicked.is_none() && a.stdout == b.stdout && a.error_lines == b.error_lines {
+            ctx.case("alias-then-stage", &key, "pass", info);
+        } else {
+            ctx.case("alias-then-stage", &key, "viol", serde_json::json!({"class": "", "what": "stages written after an aggregating alias do not act on its table: the query differs from the same stages written out",
+                "alias_out": String::from_utf8_lossy(&a.stdout), "written_out": String::from_utf8_lossy(&b.stdout), "alias_errors": a.error_lines, "written_errors": b.error_lines, "case": info}));
+        }
+    }
+}
+
 pub fn check(ctx: &mut Ctx) {
+    check_alias_then_stage(ctx);
     // limit after a sort sees the sorted order — with the cut inside a group of tied keys
     super::c09::check_sort_then_limit(ctx, "sort-then-limit");
     check_live_reapplication(ctx);
